@@ -268,8 +268,11 @@ def project(o):
                        td.microseconds)
             kind = "iv"
         else:
-            inst = o.datetime.astimezone(_dt.timezone.utc).strftime(
-                "%Y-%m-%dT%H:%M:%S.%fZ")
+            u = o.datetime.astimezone(_dt.timezone.utc)
+            # (strftime("%Y") does not pad years < 1000 on every platform)
+            inst = "%04d-%02d-%02dT%02d:%02d:%02d.%06dZ" % (
+                u.year, u.month, u.day, u.hour, u.minute, u.second,
+                u.microsecond)
             kind = "ts"
         return {"k": "DateTime", "nm": [],
                 "at": [kind, inst, str(o.minutes_from_utc),
@@ -370,13 +373,14 @@ def concretise(n, rng=None):
             name_of(nm[0], "g", rng), host=name_of(nm[1], "h", rng),
             namespace=name_of(nm[2], "ns", rng))
     if k == "Instance":
+        # an EMPTY dictionary slot is never read here: the object is left in
+        # the state the constructor leaves it in (slots are lazily
+        # initialised by their getters; spec/CimEqHeap.tla kind "lazy")
         o = CIMInstance(name_of(nm[0], "g", rng))
-        d = o.properties
         for key, p in _keyed(ch[1], rng):
-            d[key] = p
-        d = o.qualifiers
+            o.properties[key] = p
         for key, q in _keyed(ch[2], rng):
-            d[key] = q
+            o.qualifiers[key] = q
         if ch[0]:
             o.path = concretise(ch[0][0]["n"], rng)
         return o
@@ -385,9 +389,8 @@ def concretise(n, rng=None):
                      superclass=name_of(nm[1], "g", rng))
         for slot, g in (("properties", ch[1]), ("methods", ch[2]),
                         ("qualifiers", ch[3])):
-            d = getattr(o, slot)
             for key, c in _keyed(g, rng):
-                d[key] = c
+                getattr(o, slot)[key] = c
         if ch[0]:
             o.path = concretise(ch[0][0]["n"], rng)
         return o
@@ -400,9 +403,8 @@ def concretise(n, rng=None):
         o.is_array = at_decode(at[2])
         o.array_size = at_decode(at[3])
         o.propagated = at_decode(at[4])
-        d = o.qualifiers
         for key, q in _keyed(ch[1], rng):
-            d[key] = q
+            o.qualifiers[key] = q
         return o
     if k == "Parameter":
         o = CIMParameter(name_of(nm[0], "g", rng), "string")
@@ -411,20 +413,17 @@ def concretise(n, rng=None):
         o.embedded_object = at_decode(at[1])
         o.is_array = at_decode(at[2])
         o.array_size = at_decode(at[3])
-        d = o.qualifiers
         for key, q in _keyed(ch[1], rng):
-            d[key] = q
+            o.qualifiers[key] = q
         return o
     if k == "Method":
         o = CIMMethod(name_of(nm[0], "g", rng), return_type=at_decode(at[0]),
                       class_origin=name_of(nm[1], "g", rng),
                       propagated=at_decode(at[1]))
-        d = o.parameters
         for key, p in _keyed(ch[0], rng):
-            d[key] = p
-        d = o.qualifiers
+            o.parameters[key] = p
         for key, q in _keyed(ch[1], rng):
-            d[key] = q
+            o.qualifiers[key] = q
         return o
     if k == "Qualifier":
         o = CIMQualifier(name_of(nm[0], "g", rng), None, type="string")
@@ -444,9 +443,8 @@ def concretise(n, rng=None):
         o.tosubclass = at_decode(at[4])
         o.toinstance = at_decode(at[5])
         o.translatable = at_decode(at[6])
-        d = o.scopes
         for key, v in _keyed(ch[1], rng):
-            d[key] = v
+            o.scopes[key] = v
         return o
     if k == "NocaseDict":
         # a dictionary of the keybindings flavour (as CIMInstanceName hands it
@@ -479,20 +477,42 @@ def ob(f):
     return "UNCLASSIFIED:%r" % (r,)
 
 
-def observe_pair(a, b):
-    return {
+def hash_of(x):
+    """("v", hash value) or ("E" / "UNCLASSIFIED:...", None)."""
+    try:
+        return ("v", hash(x))
+    except TypeError:
+        return ("E", None)
+    except Exception as exc:  # noqa
+        return ("UNCLASSIFIED:%s" % type(exc).__name__, None)
+
+
+def observe_pair(a, b, pre_a=None, pre_b=None):
+    """the hash values are taken FIRST (pre_a / pre_b: taken even earlier by
+    the caller), before any comparison, membership test or projection has
+    looked at the objects; `hs`: taken again at the end they are the same."""
+    ha = pre_a if pre_a is not None else hash_of(a)
+    hb = pre_b if pre_b is not None else hash_of(b)
+    if ha[0] == "v" and hb[0] == "v":
+        h = "T" if ha[1] == hb[1] else "F"
+    else:
+        h = ha[0] if ha[0] != "v" else hb[0]
+    o = {
         "eab": ob(lambda: a == b), "eba": ob(lambda: b == a),
         "nab": ob(lambda: a != b), "nba": ob(lambda: b != a),
         "eaa": ob(lambda: a == a), "ebb": ob(lambda: b == b),
-        "h": ob(lambda: hash(a) == hash(b)),
+        "h": h,
         "inset": ob(lambda: b in {a}),
         "indict": ob(lambda: b in {a: 1}),
     }
+    o["hs"] = "T" if (hash_of(a), hash_of(b)) == (ha, hb) else "F"
+    return o
 
 
-def pair_event(a, b):
+def pair_event(a, b, pre_a=None):
+    obs = observe_pair(a, b, pre_a)      # before the projection reads a, b
     e = {"ev": "pair", "a": project(a), "b": project(b)}
-    e.update(observe_pair(a, b))
+    e.update(obs)
     return e
 
 
@@ -971,6 +991,34 @@ def heap_root_node(root):
                                 _e(_n("n3"), _s("uint8:1", "1"))]]}
     instu = {"k": "Instance", "nm": [_n("n1")], "at": [],
              "ch": [_v(inameu), [_e(_n("n3"), propref)], []]}
+    # objects all of whose dictionary slots are empty (kind "lazy")
+    inamebare = {"k": "InstanceName", "nm": [_n("n1"), dict(NONAME),
+                                             dict(NONAME)],
+                 "at": [], "ch": [[]]}
+    bare = {
+        "InstanceBare": emb,
+        "InstancePathBare": {"k": "Instance", "nm": [_n("n1")], "at": [],
+                             "ch": [_v(inamebare), [], []]},
+        "ClassBare": {"k": "Class", "nm": [_n("n1"), dict(NONAME)], "at": [],
+                      "ch": [[], [], [], []]},
+        "InstanceNameBare": inamebare,
+        "PropertyBare": {"k": "Property",
+                         "nm": [_n("n1"), dict(NONAME), dict(NONAME)],
+                         "at": ["s:uint8", "none", "False", "none", "none"],
+                         "ch": [_v(_s("uint8:1", "1")), []]},
+        "ParameterBare": {"k": "Parameter", "nm": [_n("n1"), dict(NONAME)],
+                          "at": ["s:string", "none", "False", "none"],
+                          "ch": [_v(_s("none")), []]},
+        "MethodBare": {"k": "Method", "nm": [_n("n1"), dict(NONAME)],
+                       "at": ["s:uint8", "none"], "ch": [[], []]},
+        "QualifierDeclarationBare": {
+            "k": "QualifierDeclaration", "nm": [_n("n1")],
+            "at": ["s:string", "False", "none", "none", "none", "none",
+                   "none"],
+            "ch": [_v(_s("none")), []]},
+    }
+    if root in bare:
+        return bare[root]
     return {"NocaseDictUnnamed": ndictu, "InstanceNameUnnamed": inameu,
             "InstanceUnnamed": instu,
             "InstanceName": iname, "ClassName": cname, "Instance": inst,
@@ -987,7 +1035,10 @@ HEAP_ROOTS = ("InstanceName", "ClassName", "Instance", "Class", "Property",
               "Qualifier", "QualifierDeclaration", "NocaseDict",
               "PropertyEmpty", "ParameterEmpty", "QualifierEmpty",
               "QualifierDeclarationEmpty", "NocaseDictUnnamed",
-              "InstanceNameUnnamed", "InstanceUnnamed")
+              "InstanceNameUnnamed", "InstanceUnnamed",
+              "InstanceBare", "InstancePathBare", "ClassBare",
+              "InstanceNameBare", "PropertyBare", "ParameterBare",
+              "MethodBare", "QualifierDeclarationBare")
 
 
 def follow(root, steps):
@@ -1128,17 +1179,74 @@ def dict_mutation(d, slot, mu, kidkey, rng):
     raise ValueError(mu)
 
 
+OBS_ACTS = ("read", "render", "compare", "dup")
+
+
+def observation(cell, v, rng):
+    """(label, fn): a concrete READ-ONLY call of the observation class `v`
+    (spec/CimEq.tla ObsActs) on an object or dictionary cell.  An
+    observation that raises (rendering an object whose attributes the
+    setters were driven into an unrenderable combination) is still only an
+    observation."""
+    def quiet(f):
+        def fn(x):
+            try:
+                f(x)
+            except Exception:  # noqa: not the subject of this property
+                pass
+        return fn
+    isdict = isinstance(cell, VendorNocaseDict)
+    if v == "read":
+        if isdict:
+            return rng.choice([
+                ("len()", quiet(len)),
+                ("list(items())", quiet(lambda x: list(x.items()))),
+                ("'Zeta' in d", quiet(lambda x: "Zeta" in x)),
+                ("get('Zeta')", quiet(lambda x: x.get("Zeta")))])
+        attrs = [a for a in dir(type(cell))
+                 if not a.startswith("_") and
+                 isinstance(getattr(type(cell), a, None), property)]
+        one = rng.choice(attrs)
+        return rng.choice([
+            ("read ." + one, quiet(lambda x: getattr(x, one))),
+            ("read every public attribute",
+             quiet(lambda x: [getattr(x, a) for a in attrs]))])
+    if v == "render":
+        cands = [("repr()", repr), ("str()", str)]
+        for meth in ("tocimxml", "tocimxmlstr", "tomof", "to_wbem_uri"):
+            if hasattr(cell, meth):
+                cands.append((meth + "()", lambda x, m=meth: getattr(x, m)()))
+        label, f = rng.choice(cands)
+        return label, quiet(f)
+    if v == "compare":
+        return rng.choice([
+            ("== its deep copy", quiet(lambda x: x == copy_.deepcopy(x))),
+            ("!= its pickle copy",
+             quiet(lambda x: x != pickle.loads(pickle.dumps(x)))),
+            ("== itself", quiet(lambda x: x == x))])
+    if v == "dup":
+        cands = [("copy.copy()", copy_.copy), ("copy.deepcopy()",
+                                               copy_.deepcopy),
+                 ("pickle.dumps()", pickle.dumps)]
+        if hasattr(cell, "copy"):
+            cands += [("copy()", lambda x: x.copy())] * 2
+        label, f = rng.choice(cands)
+        return label, quiet(f)
+    raise ValueError(v)
+
+
 def hist_observe(o, acts, rng):
     """the object after its history against a freshly built object with the
     same public attributes (other spellings of the names, other order of the
     bags): one "hist" event, or None if no such object can be built."""
+    pre = hash_of(o)       # before the projection reads the attributes
     node = project(o)
     g = RichGen(rng)
     try:
         fresh = concretise(g.reorder(g.recase(node)), rng)
     except Exception:  # noqa: projection not re-buildable (harness limit)
         return None
-    e = pair_event(o, fresh)
+    e = pair_event(o, fresh, pre)
     e["ev"] = "hist"
     e["k"] = node["k"]
     e["acts"] = acts
@@ -1164,6 +1272,11 @@ def history_event(build, muts, rng):
                 return None
             res = ob(lambda: hash(cell) == hash(cell))
             label = "hash()" if res == "T" else "hash() -> " + res
+        elif v in OBS_ACTS:
+            if isinstance(cell, list):
+                return None
+            label, fn = observation(cell, v, rng)
+            fn(cell)
         elif v in DICT_MUTATORS:
             if not isinstance(cell, VendorNocaseDict):
                 return None
@@ -1239,6 +1352,26 @@ def hist_walk(build, rng, per_cell=2):
             e = hist_observe(o, acts, rng)
             if e is not None:
                 out.append(e)
+        # read-only observations of the cell (the shape of TLC's
+        # counterexample for the raw-slot variant: <<observe(p)>>), on an
+        # object nobody has looked at, optionally hashed before
+        if isinstance(cell, list):
+            continue
+        for v in rng.sample(OBS_ACTS, min(per_cell, len(OBS_ACTS))):
+            o = build()
+            acts = []
+            if rng.random() < 0.3:
+                res = ob(lambda: hash(o) == hash(o))
+                acts.append({"v": "hash", "steps": [],
+                             "what": "hash()" if res == "T"
+                             else "hash() -> " + res})
+            tgt = resolve(o, access)
+            label, fn = observation(tgt, v, rng)
+            fn(tgt)
+            acts.append({"v": v, "steps": list(steps), "what": label})
+            e = hist_observe(o, acts, rng)
+            if e is not None:
+                out.append(e)
     return out
 
 
@@ -1283,7 +1416,11 @@ DT_TEXTS = ["20140924193040.654321+120", "20140924183040.654321+060",
             "19991231235959.999999-720", "20000101000000.000000+000",
             "2014092419****.******+000", "00000012010203.000004:000",
             "00000012010203.******:000", "00000012010203.000000:000",
-            "99999999235959.999999:000", "00000000000000.000000:000"]
+            "99999999235959.999999:000", "00000000000000.000000:000",
+            # field boundaries (spec/CimEqU.tla UDateTimeBoundary)
+            "00010101000000.000000+000", "09991231235959.999999+000",
+            "01000101000000.000000+060", "0999123123****.******+000",
+            "10000101000000.000000+000", "99991231235959.999999+000"]
 STRINGS = ["", "a", "A", "abc", "ABC", " x ", "ä", "Ä", "1", "True",
            "two\nlines", "Alpha", "alpha"]
 INT_RANGE = {"uint8": (0, 255), "sint8": (-128, 127), "uint16": (0, 65535),
